@@ -66,6 +66,23 @@ Ticks(lo, hi, meth) ==
     IF meth[1] = "ms" THEN MsRange(MsCeilTo(lo, meth[2]), AddMs(hi, 1), meth[2], <<>>)
     ELSE Range(meth[1], lo, AddMs(hi, 1), meth[2])
 
+\* ---------------------------------------------------------------- nice (labella.scale.TimeScale.nice with skip handling)
+\* epoch milliseconds of an instant modulo a small step (no 1e13-sized integer is ever formed)
+EpochMod(t, s) == (((t[1] % s) * (DAYMS % s)) + t[2]) % s
+\* floor / ceil to the nearest boundary of the method's unit whose unit number is divisible by the step
+RECURSIVE NiceFloorRec(_, _, _, _)
+NiceFloorRec(u, k, b, fuel) == IF k <= 1 \/ Number(u, b) % k = 0 \/ fuel = 0 THEN b
+                               ELSE NiceFloorRec(u, k, Floor(u, AddMs(b, -1)), fuel - 1)
+RECURSIVE NiceCeilRec(_, _, _, _)
+NiceCeilRec(u, k, b, fuel) == IF k <= 1 \/ Number(u, b) % k = 0 \/ fuel = 0 THEN b
+                              ELSE NiceCeilRec(u, k, Ceil(u, AddMs(b, 1)), fuel - 1)
+NiceFloor(me, t) == IF me[1] = "ms" THEN AddMs(t, -EpochMod(t, me[2]))
+                    ELSE NiceFloorRec(me[1], me[2], Floor(me[1], t), 400)
+NiceCeil(me, t) == IF me[1] = "ms" THEN (LET r == EpochMod(t, me[2]) IN IF r = 0 THEN t ELSE AddMs(t, me[2] - r))
+                   ELSE NiceCeilRec(me[1], me[2], Ceil(me[1], t), 400)
+\* admissible niced domains <<lo', hi'>> of lo <= hi for count m
+NiceDomains(lo, hi, m) == {<<NiceFloor(me, lo), NiceCeil(me, hi)>> : me \in TickMethods(lo, hi, m)}
+
 \* ---------------------------------------------------------------- declarative predicates (as in TimeTrace.tla)
 Twice(g) == NormT(2 * g[1], 2 * g[2])
 DLe(x, y) == x = y \/ DLt(x, y)
